@@ -81,6 +81,9 @@ pub enum Profile {
     LinearNoise { start: u64, step: u32, noise: u32 },
     /// slope changes every 512 values (favours the block-wise linear codec)
     Piecewise { start: u64, max_slope: u32, noise: u16 },
+    /// regular piecewise-linear data with a common divisor: start + mult * (sum of per-block integral slopes), i.e.
+    /// block-wise linear with gcd = mult and integral slopes (e.g. timestamps of a sensor sampled at a fixed rate)
+    PiecewiseGcd { start: u64, max_slope: u32, mult: u32 },
     Gcd { base: u64, gcd: u32, span: u32 },
     Small { base: u64, span: u32 },
     Wide,
@@ -265,7 +268,7 @@ struct ValGen<'a> {
 impl<'a> ValGen<'a> {
     fn new(spec: &'a ColSpec, table_ord: usize) -> Self {
         let start = match spec.profile {
-            Profile::Piecewise { start, .. } => start,
+            Profile::Piecewise { start, .. } | Profile::PiecewiseGcd { start, .. } => start,
             _ => 0,
         };
         ValGen { spec, rng: Sm64::new(mix(spec.salt as u64, table_ord as u64 + 77)), k: 0, cur: start, slope: 0 }
@@ -292,6 +295,13 @@ impl<'a> ValGen<'a> {
                 }
                 self.cur = self.cur.wrapping_add(self.slope);
                 self.cur.wrapping_add(self.rng.below(noise as u64 + 1))
+            }
+            Profile::PiecewiseGcd { max_slope, mult, .. } => {
+                if k % 512 == 0 {
+                    self.slope = 1 + self.rng.below(max_slope as u64);
+                }
+                self.cur = self.cur.wrapping_add(self.slope.wrapping_mul(mult as u64));
+                self.cur
             }
             Profile::Gcd { base, gcd, span } => base.wrapping_add((gcd as u64).wrapping_mul(self.rng.below(span as u64 + 1))),
             Profile::Small { base, span } => base.wrapping_add(self.rng.below(span as u64 + 1)),
@@ -984,7 +994,9 @@ fn start_strategy() -> BoxedStrategy<u64> {
 fn profile_strategy() -> BoxedStrategy<Profile> {
     prop_oneof![
         2 => start_strategy().prop_map(|v| Profile::Const { v }),
-        3 => (start_strategy(), prop_oneof![0u32..20, 1000u32..100_000, Just(u32::MAX)]).prop_map(|(start, step)| Profile::Linear { start, step }),
+        // steps over every magnitude up to 2^32 (log-uniform), not only small ones
+        3 => (start_strategy(), prop_oneof![2 => 0u32..20, 2 => 1000u32..100_000, 3 => (3u32..32, any::<u32>()).prop_map(|(b, r)| (1u32 << b) | (r & ((1u32 << b) - 1))), 1 => Just(u32::MAX)]).prop_map(|(start, step)| Profile::Linear { start, step }),
+        2 => (start_strategy(), prop_oneof![1u32..4, 1u32..200], prop_oneof![2 => 2u32..1000, 3 => (10u32..31, any::<u32>()).prop_map(|(b, r)| (1u32 << b) | (r & ((1u32 << b) - 1))), 1 => Just(1_000_000u32), 1 => Just(5_000_000u32)]).prop_map(|(start, max_slope, mult)| Profile::PiecewiseGcd { start, max_slope, mult }),
         1 => (start_strategy(), 30u8..63).prop_map(|(start, shift)| Profile::LinearBig { start, shift }),
         3 => prop_oneof![1u8..=64, 55u8..=58, 62u8..=64].prop_map(|bits| Profile::Bits { bits }),
         3 => (start_strategy(), 1u32..5000, prop_oneof![1u32..16, 100u32..100_000]).prop_map(|(start, step, noise)| Profile::LinearNoise { start, step, noise }),
